@@ -15,6 +15,8 @@ P == INSTANCE Penalty WITH Add <- RAdd, Sub <- RSub, Mul <- RMul, Div <- RDiv, F
 Solve(Y, W, L) == F!Solve(Y, W, L)
 
 IsNum(s) == s \notin {"nan", "inf", "-inf"}
+\* materialise a function-defined sequence once (TLC re-evaluates [i \in S |-> e] at every application)
+Mat(s) == s \o <<>>
 N(y) == Len(y)
 RECURSIVE MaxAbsRec(_, _)
 MaxAbsRec(s, j) == IF j = 0 THEN "0" ELSE RMax(RAbs(s[j]), MaxAbsRec(s, j - 1))
@@ -25,10 +27,10 @@ MaxAbs(s) == MaxAbsRec(s, Len(s))
 (*  "full": == nodata, NaN or infinite are missing (fixed and GCV kernels)  *)
 (*  "eq"  : == nodata is missing (V-curve kernels)                          *)
 Missing(x, nd, mode) == (IsNum(x) /\ IsNum(nd) /\ x = nd) \/ (mode = "full" /\ ~IsNum(x))
-Weights(y, nd, mode) == [j \in 1..Len(y) |-> IF Missing(y[j], nd, mode) THEN "0" ELSE "1"]
+Weights(y, nd, mode) == Mat([j \in 1..Len(y) |-> IF Missing(y[j], nd, mode) THEN "0" ELSE "1"])
 NValid(y, nd, mode) == Cardinality({j \in 1..Len(y) : ~Missing(y[j], nd, mode)})
 \* the value of a missing cell must not matter: the exact solve sees 0 there
-Clean(y, wts) == [j \in 1..Len(y) |-> IF wts[j] = "0" THEN "0" ELSE y[j]]
+Clean(y, wts) == Mat([j \in 1..Len(y) |-> IF wts[j] = "0" THEN "0" ELSE y[j]])
 AllNum(y, wts) == \A j \in 1..Len(y) : wts[j] # "0" => IsNum(y[j])
 
 ----------------------------------------------------------------------------
@@ -50,9 +52,9 @@ PassThroughOK(out, y) ==
 ----------------------------------------------------------------------------
 (* asymmetric (expectile) weights and the reweighting iteration             *)
 Pattern(y, z, wts) == [j \in 1..Len(y) |-> IF wts[j] # "0" /\ RLt(z[j], y[j]) THEN 1 ELSE 0]
-AsymW(wts, pat, p) == [j \in 1..Len(wts) |-> IF wts[j] = "0" THEN "0"
-                                             ELSE RMul(wts[j], IF pat[j] = 1 THEN p ELSE RSub("1", p))]
-Zeros(n) == [j \in 1..n |-> "0"]
+AsymW(wts, pat, p) == Mat([j \in 1..Len(wts) |-> IF wts[j] = "0" THEN "0"
+                                             ELSE RMul(wts[j], IF pat[j] = 1 THEN p ELSE RSub("1", p))])
+Zeros(n) == Mat([j \in 1..n |-> "0"])
 EnvTol(z) == RMul("1/1000000", RMax("1", MaxAbs(z)))
 \* is a logged envelope decision (1: above the curve) compatible with the exact curve?
 HintOK(y, z, wts, hint) ==
@@ -149,23 +151,23 @@ RECURSIVE MinOrd(_, _, _)
 MinOrd(v, i, best) == IF i > Len(v) THEN best ELSE MinOrd(v, i + 1, RMin(best, v[i]))
 TieBand == "1000001/1000000"
 \* curves for the symmetric V-curve: plain PLS at every grid value
-PlsCurves(y, wts, grid) == [i \in 1..Len(grid) |-> Solve(y, wts, Lam(grid[i]))]
+PlsCurves(y, wts, grid) == Mat([i \in 1..Len(grid) |-> Solve(y, wts, Lam(grid[i]))])
 \* curves for the asymmetric V-curve: expectile fixed points certified from the logged final
 \* envelope pattern of each grid value (pats[i]); "" when the pattern is not a fixed point
 FixedPoint(y, wts, lam, p, pat) ==
     LET z == Solve(y, AsymW(wts, pat, p), lam) IN IF HintOK(y, z, wts, pat) THEN z ELSE <<>>
-ExpCurves(y, wts, grid, p, pats) == [i \in 1..Len(grid) |-> FixedPoint(y, wts, Lam(grid[i]), p, pats[i])]
+ExpCurves(y, wts, grid, p, pats) == Mat([i \in 1..Len(grid) |-> FixedPoint(y, wts, Lam(grid[i]), p, pats[i])])
 
 \* result <<kind, clause, detail>> for the selection part
 VSelect(y, wts, grid, curves, lopt) ==
     IF \E i \in 1..Len(curves) : curves[i] = <<>> THEN <<"SKIP", "sweep-not-converged-at-some-grid-value", "">>
-    ELSE LET fits == [i \in 1..Len(grid) |-> FitOf(y, wts, curves[i])]
-             pens == [i \in 1..Len(grid) |-> PenOf(curves[i])]
+    ELSE LET fits == Mat([i \in 1..Len(grid) |-> FitOf(y, wts, curves[i])])
+             pens == Mat([i \in 1..Len(grid) |-> PenOf(curves[i])])
          IN  IF \E i \in 1..Len(grid) : fits[i] = "0" \/ pens[i] = "0" \/ RLt(RDiv(fits[i], RMax("1", FitOf(y, wts, Zeros(Len(y))))), "1/1000000000000")
              THEN <<"SKIP", "degenerate-criterion", "">>
              ELSE LET kk == MidIndex(grid, lopt) IN
                   IF kk = 0 THEN <<"REJECT", "Midpoint", RShow(RLog10(lopt))>>
-                  ELSE LET v == [i \in 1..(Len(grid) - 1) |-> VOrd(fits, pens, grid, i)]
+                  ELSE LET v == Mat([i \in 1..(Len(grid) - 1) |-> VOrd(fits, pens, grid, i)])
                            mn == MinOrd(v, 2, v[1]) IN
                        IF RLe(v[kk], RMul(mn, TieBand)) THEN <<"ACCEPT", "", ToString(kk)>>
                        ELSE <<"REJECT", "VMin", ToString(kk)>>
@@ -227,7 +229,7 @@ GcvVerdict(y, nd, grid, robust, hasP, p, out, lopt, fhints, hinted) ==
         ELSE IF GridIndex(grid, lopt) = 0 THEN <<"REJECT", "InGrid", RShow(RLog10(lopt))>>
         ELSE IF robust THEN <<"ACCEPT", "", "robust: grid membership only (see the linked clauses)">>
         ELSE LET yc == Clean(y, wts)
-                 sc == [i \in 1..Len(grid) |-> GcvScore(yc, wts, Lam(grid[i]), Solve(yc, wts, Lam(grid[i])))]
+                 sc == Mat([i \in 1..Len(grid) |-> GcvScore(yc, wts, Lam(grid[i]), Solve(yc, wts, Lam(grid[i])))])
                  mn == MinOrd(sc, 2, sc[1])
                  kk == GridIndex(grid, lopt)
                  band == FixedVerdict(y, nd, lopt, out, hasP, p, fhints, hinted)
